@@ -533,6 +533,7 @@ def bounded(rep: Report, tier, seed):
     for _ in range(10 if tier == "quick" else 60):
         m, k, n = (int(x) for x in rng.integers(1, 5, size=3))
         A4, B4 = rng.standard_normal((m, k, 4)), rng.standard_normal((k, n, 4))
+        A4 = A4 * [1.0, 1e-20, 1e-100, 1e+100, 1e-17][_ % 5]     # magnitudes far from 1 (squares still representable)
         fa = rt.fro(A4)
 
         def f():
@@ -541,12 +542,12 @@ def bounded(rep: Report, tier, seed):
             Q = rt.gram_schmidt_unitary(rng, m)
             vals.append(float(u.quat_frobenius_norm(u.quat_matmat(rt.q_from4(Q), rt.q_from4(A4)))))
             ab = float(u.quat_frobenius_norm(u.quat_matmat(rt.q_from4(A4), rt.q_from4(B4))))
-            ok = all(abs(v - fa) <= 1e-12 * max(1, fa) for v in vals) and ab <= fa * rt.fro(B4) * (1 + 1e-12)
+            ok = all(abs(v - fa) <= 1e-12 * fa for v in vals) and ab <= fa * rt.fro(B4) * (1 + 1e-12)
             for mk1, mk2 in ((rt.q_from4, rt.q_from4), (rt.sparse_from4, rt.sparse_from4), (rt.sparse_from4, rt.q_from4), (rt.q_from4, rt.sparse_from4)):
                 lhs = rt.any_to4(u.quat_hermitian(u.quat_matmat(mk1(A4), mk2(B4))))
                 rhs = rt.any_to4(u.quat_matmat(u.quat_hermitian(mk2(B4)), u.quat_hermitian(mk1(A4))))
                 hh = rt.any_to4(u.quat_hermitian(u.quat_hermitian(mk1(A4))))
-                ok = ok and np.allclose(lhs, rhs, atol=1e-12 * max(1, fa * rt.fro(B4))) and np.array_equal(hh, A4)
+                ok = ok and np.allclose(lhs, rhs, rtol=0, atol=1e-12 * fa * rt.fro(B4)) and np.array_equal(hh, A4)
             return None if ok else {"vals": vals, "ab": ab, "fro": fa}
         b3.case(f"{P}.bounded.norm_and_star_laws", (m, k, n, round(fa, 9)), f, "Frobenius-norm / conjugate-transpose law violated", inputs={"A": A4, "B": B4})
     b3.samples.append({"check": "||QA||_F == ||A||_F", "Q": "Gram-Schmidt unitary built in the harness"})
